@@ -329,6 +329,9 @@ theorem simple_typed {c : Cfg} (ok2 : CfgOk2 c) {pre act : List Val} {s s' : Sta
   | right t => exact ty_right ht hs hty h
   | emptySet t => exact ty_emptySet ht hs hty h
   | mem => exact ty_mem ht hs hty h
+  | lambda _ _ _ => simp [tySimple] at ht
+  | apply => simp [tySimple] at ht
+  | exec => simp [simple] at h
   | ifLeft _ _ => simp [simple] at h
   | failwith => simp [simple] at h
   | ifNone _ _ => simp [simple] at h
